@@ -394,6 +394,12 @@ def gen_keystore(repo):
     emit("ks_fs_occupied_get", fs, r"impl<T: WrappedKey> Occupied<T> for OccupiedEntry<'_, T>\s*\{", "get")
     emit("ks_fs_occupied_remove", fs, r"impl<T: WrappedKey> Occupied<T> for OccupiedEntry<'_, T>\s*\{", "remove")
     emit("ks_fs_vacant_insert", fs, r"impl<T: WrappedKey> Vacant<T> for VacantEntry<'_, T>\s*\{", "insert")
+    bi = fn_body_in(fs, r"impl<T: WrappedKey> Vacant<T> for VacantEntry<'_, T>\s*\{", "insert") or ""
+    steps = sorted([(m.start(), re.sub(r"\s+", "", m.group(0)).rstrip("(")) for m in
+                    re.finditer(r"cbor::into_writer\(|self\.fd\.fsync\(|self\.dirty\s*=\s*true", bi)])
+    out.append("Definition ks_fs_vacant_insert_steps : list string := [%s].\n" % "; ".join(coq_str(x) for _, x in steps))
+    out.append("Definition ks_fs_vacant_insert_propagates : list string := [%s].\n" % "; ".join(
+        coq_str(re.sub(r"\s+", "", x)) for x in re.findall(r"(cbor::into_writer\([^;]*\)\?|self\.fd\.fsync\(\)\?)", bi)))
     b = emit("ks_fs_vacant_drop", fs, r"impl<T> Drop for VacantEntry<'_, T>\s*\{", "drop")
     out.append("Definition ks_fs_vacant_drop_guard : string := %s.\n" % coq_str(
         (re.search(r"if\s+([^{]+?)\s*\{", b) or [None, "?"])[1]))
